@@ -7,6 +7,9 @@ package main
 // `%x.convertsToT()`; compared with the Lean model and checked against the laws directly.
 
 import (
+	"google.golang.org/protobuf/reflect/protoreflect"
+	"google.golang.org/protobuf/proto"
+	"strconv"
 	"regexp"
 	"fmt"
 	"strings"
@@ -98,7 +101,7 @@ func tableAllows(from, to string) bool {
 func c13Strings(c *Ctx) []string {
 	out := []string{"1.0", " 1", "+1", "1e3", "T", "yes", "2020-13-01", "24:00", "5 'mg'", "5", "5 days", "", " ", "1", "0", "-1", "-0", "+0", "00", "007", "1.", ".5", "-.5", "1.5.2",
 		"1E3", "1e-2", "1e", "e1", "1e+2", "1e2147483648", "1e-2147483649", "2147483647", "2147483648", "-2147483648", "-2147483649", "99999999999999999999", "1_000", "0x10", "१",
-		"true", "TRUE", "tRuE", "t", "f", "Y", "N", "no", "NO", "yes ", "1.00", "0.0", "0.00", "İ", "ｔｒｕｅ", "on", "off", "null",
+		"010", "0010", "0x10", "0X1F", "0b11", "0o17", "017", "1_000", "+010", "-08", "00", "0", "-0", "+0", "2147483648", "-2147483649", "１２", "true", "TRUE", "tRuE", "t", "f", "Y", "N", "no", "NO", "yes ", "1.00", "0.0", "0.00", "İ", "ｔｒｕｅ", "on", "off", "null",
 		"2020", "2020-01", "2020-01-01", "2020-02-29", "2019-02-29", "2020-02-30", "2020-00-10", "2020-04-31", "@2020", "@2020-01", "20200101", "2020-1-1", "02020", "0000", "0000-01-01", "9999-12-31", "2020-01-01T", "2020T", "2020-01T", "@2020T",
 		"2020-01-01T10", "2020-01-01T5", "2020-01-01T24", "2020-01-01T10:30", "2020-01-01T10:60", "2020-01-01T10:30:59", "2020-01-01T10:30:60", "2020-01-01T10:30:00.000", "2020-01-01T10:30:00.1", "2020-01-01T10:30:00.12", "2020-01-01T10:30:00.1234",
 		"2020-01-01T10:30:00.123456", "2020-01-01T10:30:00.123456789", "2020-01-01T10:30:00.1234567891", "2020-01-01T10:30:00,123", "2020-01-01T10:30:00.+12", "2020-01-01T10:30:00.-12", "2020-01-01T10:30:00.-00", "2020-01-01T10:30:00.",
@@ -299,6 +302,13 @@ func runC13(c *Ctx) {
 	add(fhir.Boolean(true), "Boolean element")
 	add(fhir.Code("final"), "Code element")
 	add(&ppb.Patient_GenderCode{Value: cpb.AdministrativeGenderCode_FEMALE}, "enum code element")
+	add(&dtpb.Xhtml{Value: "<div xmlns=\"http://www.w3.org/1999/xhtml\">x</div>"}, "Xhtml element")
+	add(&dtpb.Markdown{Value: "**m**"}, "Markdown element")
+	add(&dtpb.Canonical{Value: "http://x|1"}, "Canonical element")
+	add(&dtpb.Base64Binary{Value: []byte{0xFB, 0xFF}}, "Base64Binary element")
+	add(&dtpb.Oid{Value: "urn:oid:1.2"}, "Oid element")
+	add(&dtpb.Uuid{Value: "urn:uuid:53fefa32-fcbb-4ff8-8a92-55ee120877b7"}, "Uuid element")
+	add(&dtpb.Url{Value: "http://u"}, "Url element")
 	add(fhir.URI("http://x"), "Uri element")
 	add(fhir.ID("abc"), "Id element")
 	add(&dtpb.Quantity{Value: &dtpb.Decimal{Value: "5.0"}, Code: &dtpb.Code{Value: "mg"}}, "Quantity element")
@@ -337,6 +347,17 @@ func runC13(c *Ctx) {
 			}
 			c.Law(toOut != "err" && toOut != "panic" && toOut != "ok:many", failClass, "toT() on an unconvertible item is empty, not an error", in, canonOutcome(oTo, nil))
 			c.Law(cvtOut != "err", "C13/converts-fails", "convertsToT() always answers", in, canonOutcome(oCvt, nil))
+			// the result of a conversion is a System value, never the FHIR element it was given
+			if val != nil {
+				_, isMsg := val.(proto.Message)
+				c.Law(!isMsg, "C13/result-type", "the result of toT() is of type T", in, fmt.Sprintf("the result is the element %T itself", val))
+			}
+			// a String converts to an Integer only if it is an optional sign and decimal digits, and then to the number they denote
+			if str, isStr := x.(system.String); isStr && val != nil && t == "Integer" {
+				want, perr := strconv.ParseInt(string(str), 10, 32)
+				got, isInt := val.(system.Integer)
+				c.Law(integerShape.MatchString(string(str)) && perr == nil && isInt && int64(got) == want, "C13/string-shape", "a String that is not an Integer text does not convert to one, and an Integer text converts to the number its decimal digits denote", in, toOut)
+			}
 			// a String converts to a date / time only if it has the shape of one (an independent, deliberately
 			// permissive description of the accepted texts: optional '@' / '@T' marker, digit groups, offset)
 			if str, isStr := x.(system.String); isStr && val != nil {
@@ -355,7 +376,7 @@ func runC13(c *Ctx) {
 			// L1: convertsTo iff non-empty
 			if cvtOut != "err" && toOut != "err" && toOut != "panic" {
 				class := "C13/converts-iff"
-				if ty == "none" && t == "String" {
+				if complexItem(x) && t == "String" {
 					class = "C13/toString-complex"
 				}
 				c.Law((cvtOut == "true") == (val != nil), class, "convertsToT() is true exactly when toT() is non-empty", in, "convertsTo="+cvtOut+" to="+toOut)
@@ -372,7 +393,7 @@ func runC13(c *Ctx) {
 			// L3: result type
 			_, rty := cvToken(val)
 			class := "C13/result-type"
-			if ty == "none" && t == "String" {
+			if complexItem(x) && t == "String" {
 				class = "C13/toString-complex"
 			}
 			c.Law(rty == t, class, "the result of toT() is of type T", in, "result is "+rty+": "+toOut)
@@ -455,3 +476,25 @@ var temporalShapes = map[string]*regexp.Regexp{
 }
 
 var quotedQuantity = regexp.MustCompile(`^([+-]?\d+(?:\.\d+)?)\s*'([^']+)'$`)
+
+var integerShape = regexp.MustCompile(`^[+-]?[0-9]+$`)
+
+// complexItem: a FHIR element that is not a primitive (decided from its structure definition kind, not from what the
+// implementation can convert): the items the recorded toString() finding is about.
+func complexItem(x any) bool {
+	m, ok := x.(proto.Message)
+	if !ok {
+		return false
+	}
+	d := m.ProtoReflect().Descriptor()
+	if q, isQ := x.(*dtpb.Quantity); isQ {
+		return q.GetValue() == nil // a quantity without a value has no text either (same recorded finding)
+	}
+	if isPrimitiveDesc(d) {
+		return false
+	}
+	if vf := d.Fields().ByName("value"); vf != nil && vf.Kind() == protoreflect.EnumKind {
+		return false // a code bound to a required value set
+	}
+	return true
+}
